@@ -62,6 +62,10 @@ ASSUME = [
     "Go is never executed in this sandbox (no Go toolchain): go_read_int / go_read_string follow the Go "
     "specification (integer literals, interpreted string literals, constant representability in int) and are not tied",
     "bytes >= 0x80 are passed through by every reader (well-formed UTF-8, no BOM)",
+    "no length assumption: emit_const / format_str / the readers and C13_string_literal hold for strings of any "
+    "length; the minimum translation limits of ISO C (509 characters per string literal in C90, 4095 in C99) are "
+    "NOT modelled - gcc, CPython and the Go specification impose none - and are exercised by the long-strings "
+    "catalogue (boundaries 255/256, 509/510, 1018, 4095 with every escape kind at every offset around them)",
     "hand-modelled control flow pinned by AST digests (coq/ref/skeletons_c13.json): t_STRING_LITERAL loop and regex, "
     "p_const, p_option_value, p_constant_reference*, _lookup_referenced_member, Formatter.format_value, "
     "Constant/Option.reflect_subclass_by_value, BlockBindConstant.constant_value",
@@ -166,6 +170,8 @@ def run(ck: Check) -> None:
         sweep = rng.sample(sweep, 2)
     for sp in sweep:
         progs.append(sp); origins.append(f"escape-sweep#{k}"); k += 1
+    for lp in G.long_string_programs(k, ck.quick):
+        progs.append(lp); origins.append(f"long-strings#{k}"); k += 1
     for _ in range(n_dz):
         progs.append(G.gen_divzero_program(rng, k)); origins.append(f"zero-divisor#{k}"); k += 1
     for _ in range(n_err):
@@ -519,6 +525,12 @@ def run(ck: Check) -> None:
                    "uint8[CONST] capacities name constants; half of the strings of the main stream and all of the "
                    "hard-strings / escape-sweep streams contain \" \\ LF CR NUL and escape-looking sequences (the class of "
                    "the fixed finding str-escape: read back one by one as well as through the whole module/header); "
+                   "a boundary catalogue of LONG strings (plain strings of length 254..256, 508..510, 1017..1019, 4095 and, for "
+                   "each escape kind - quote, backslash, LF, control characters written in octal, DEL, NUL; thorough: also "
+                   "TAB, CR, 0x1f - a string whose escape starts at each escaped offset -4..+1 around 255, 509, 1018, 4095, "
+                   "and strings ending with an escape exactly on the boundary; quick tier thins the grid at 1018/4095) plus "
+                   "random long strings (runs of letters with escapes, escaped length steered to multiples of 509 +-3) in "
+                   "half of the hard-strings programs, all read back by gcc, CPython and the Go reader model; "
                    "expressions with a zero divisor (class of the fixed finding div-zero: must be the diagnosed error) and "
                    "other diagnosed errors (undefined / non-integer reference, duplicate, bad escape, syntax). One evaluation = "
                    "one compared item (constant value, use, emitted literal x language); distinct_nontrivial = distinct "
